@@ -270,6 +270,8 @@ class Normalizer:
         for f in list(repo.funcs.values()):
             self._replace_node(f, self.unpack_records(f))
         for f in list(repo.funcs.values()):
+            self._replace_node(f, self.expand_star_args(f))
+        for f in list(repo.funcs.values()):
             self._replace_node(f, self.positional(f))
         for f in list(repo.funcs.values()):
             self._replace_node(f, self.propagate(f))
@@ -1358,15 +1360,16 @@ class Normalizer:
                         setattr(s2, fld, block(blk))
                 v = getattr(s2, "value", None)
                 tgt = s2.targets[0] if isinstance(s2, ast.Assign) and len(s2.targets) == 1 else (s2.target if isinstance(s2, ast.AnnAssign) else None)
-                if isinstance(s2, (ast.Assign, ast.AnnAssign)) and isinstance(tgt, ast.Name) and isinstance(v, ast.ListComp) and len(v.generators) == 1 and not v.generators[0].is_async:
+                if isinstance(s2, (ast.Assign, ast.AnnAssign)) and isinstance(tgt, ast.Name) and isinstance(v, (ast.ListComp, ast.SetComp)) and len(v.generators) == 1 and not v.generators[0].is_async:
                     g = v.generators[0]
                     tnames = {n.id for n in ast.walk(g.target) if isinstance(n, ast.Name)}
                     over_range = isinstance(g.iter, ast.Call) and isinstance(g.iter.func, ast.Name) and g.iter.func.id == "range"
                     uses_target = any(isinstance(n, ast.Name) and n.id == tgt.id for n in ast.walk(v))
                     if not over_range and not uses_target and not (tnames & (bound_elsewhere - tnames)):
                         init = copy.copy(s2)
-                        init.value = ast.copy_location(ast.List(elts=[], ctx=ast.Load()), v)
-                        app: ast.stmt = ast.copy_location(ast.Expr(value=ast.copy_location(ast.Call(func=ast.Attribute(value=ast.Name(id=tgt.id, ctx=ast.Load()), attr="append", ctx=ast.Load()), args=[v.elt], keywords=[]), v)), v)
+                        is_set = isinstance(v, ast.SetComp)
+                        init.value = ast.copy_location(ast.Call(func=ast.Name(id="set", ctx=ast.Load()), args=[], keywords=[]) if is_set else ast.List(elts=[], ctx=ast.Load()), v)
+                        app: ast.stmt = ast.copy_location(ast.Expr(value=ast.copy_location(ast.Call(func=ast.Attribute(value=ast.Name(id=tgt.id, ctx=ast.Load()), attr="add" if is_set else "append", ctx=ast.Load()), args=[v.elt], keywords=[]), v)), v)
                         for c in reversed(g.ifs):
                             app = ast.copy_location(ast.If(test=c, body=[app], orelse=[]), v)
                         loop = ast.copy_location(ast.For(target=g.target, iter=g.iter, body=[app], orelse=[]), v)
@@ -1731,6 +1734,82 @@ class Normalizer:
                 hit = True
                 self.log["positional"].append(f"{f.qual}:{n.lineno} {unparse(n.func)}")
         return new if hit else None
+
+    # ------------------------------------------------------------------------------------------ N26
+    def expand_star_args(self, f: Func) -> t.Optional[FuncNode]:
+        """g(a, *T, k=v)  ->  g(a, t1, t2, t3, k=v)   when T is a tuple / list display or a NamedTuple construction of the
+        package with all fields given - written in place, bound once to a local that is never changed, or a module
+        constant that is not in the inventory - and its elements are pure (names, attribute paths, constants)."""
+        fn = f.node
+        repo = self.repo
+        hit = [False]
+        stores: t.Dict[str, int] = {}
+        for n in _walk_no_scopes(fn):
+            if isinstance(n, ast.Name) and isinstance(n.ctx, (ast.Store, ast.Del)):
+                stores[n.id] = stores.get(n.id, 0) + 1
+        params = {a.arg for a in _params(fn)}
+
+        def elems(e: ast.expr, depth: int = 0) -> t.Optional[t.List[ast.expr]]:
+            if depth > 3:
+                return None
+            if isinstance(e, ast.Name):
+                if e.id in params:
+                    return None
+                if e.id in stores:
+                    if stores[e.id] != 1:
+                        return None
+                    defs = [n for n in fn.body if isinstance(n, (ast.Assign, ast.AnnAssign)) and n.value is not None and [unparse(x) for x in (n.targets if isinstance(n, ast.Assign) else [n.target])] == [e.id]]
+                    if len(defs) != 1:
+                        return None
+                    return elems(t.cast(ast.expr, defs[0].value), depth + 1)
+                r = repo.resolve_name(e.id, f.mod)
+                if isinstance(r, tuple) and r[0] == "const" and len(r) == 3 and e.id not in self.inv_consts.get(r[1].name, set()):
+                    from .load import mutated_global
+
+                    if mutated_global(r[1], e.id):
+                        return None
+                    return elems(r[2], depth + 1)
+                return None
+            items: t.Optional[t.List[ast.expr]] = None
+            if isinstance(e, (ast.Tuple, ast.List)) and not any(isinstance(x, ast.Starred) for x in e.elts):
+                items = list(e.elts)
+            elif isinstance(e, ast.Call) and isinstance(e.func, ast.Name) and not any(isinstance(a, ast.Starred) for a in e.args) and all(k.arg for k in e.keywords):
+                c = repo.resolve_name(e.func.id, f.mod)
+                if isinstance(c, Cls) and any(x.endswith("NamedTuple") for x in c.ext_bases) and not c.methods:
+                    fields = [p_.name for p_ in c.init_params()]
+                    given: t.Dict[str, ast.expr] = dict(zip(fields, e.args))
+                    for k in e.keywords:
+                        given[t.cast(str, k.arg)] = k.value
+                    if list(given) and set(given) == set(fields):
+                        items = [given[n_] for n_ in fields]
+            if items is None:
+                return None
+            for c_ in items:
+                if not (_is_pure_path(c_) or isinstance(c_, ast.Constant) or (isinstance(c_, ast.UnaryOp) and isinstance(c_.operand, ast.Constant))):
+                    return None
+            return items
+
+        class C(ast.NodeTransformer):
+            def visit_Call(self, node: ast.Call) -> ast.AST:
+                self.generic_visit(node)
+                if not any(isinstance(a, ast.Starred) for a in node.args):
+                    return node
+                args: t.List[ast.expr] = []
+                for a in node.args:
+                    if isinstance(a, ast.Starred):
+                        es = elems(a.value)
+                        if es is None:
+                            return node
+                        args.extend(copy.deepcopy(x) for x in es)
+                    else:
+                        args.append(a)
+                node.args = args
+                hit[0] = True
+                return node
+
+        new = copy.deepcopy(fn)
+        C().visit(new)
+        return new if hit[0] else None
 
     # ------------------------------------------------------------------------------------------ N25
     def thread_flags(self, f: Func) -> t.Optional[FuncNode]:
